@@ -31,6 +31,13 @@ func c13(p *core.Prog, r *core.Report) {
 	c06Inside(p, r)
 	r.Filter = nil
 	r.Alias("C06-R4", "")
+	seenRd := map[*ssa.Function]bool{}
+	for _, tn := range []string{"initMessage", "initReq", "initRes"} {
+		if f := p.Func("", tn, "read"); f != nil && !seenRd[f] {
+			seenRd[f] = true
+			readReportsTruncation(p, r, f, "C13-R6")
+		}
+	}
 
 	cur, _ := constVal(p, "CurrentProtocolVersion")
 	versionF := p.Field("", "initMessage", "Version")
@@ -119,6 +126,11 @@ func c13(p *core.Prog, r *core.Report) {
 		okDef := def != nil && def.Block() == f.Blocks[0]
 		r.Check(okDef, "C13-R2", fname(f), "deferred initError registered at entry", p.Pos(f.Pos()), "every return runs the failure handler", "a return can bypass the handshake failure handler")
 		handshakeDeferOrder(p, r, f, def, "C13-R4")
+		for _, a := range f.AnonFuncs {
+			if len(core.CallsIn(a, "Channel.initError")) == 1 {
+				r.Check(onEveryPath(a, "Channel.initError"), "C13-R2", fname(f), "the deferred failure handler always runs initError", p.Pos(a.Pos()), "no path of the deferred closure skips it", "some handshake failures skip the failure handler: no error frame is sent and the socket is not closed by the handshake")
+			}
+		}
 		// R4
 		var dl ssa.Instruction
 		for _, c := range core.CallsIn(f, "setInitDeadline") {
